@@ -20,7 +20,7 @@ ASSUMPTIONS = [
     "floating-point: both sides evaluate matched/total*100 in IEEE doubles; tolerance 1e-9 absolute",
 ]
 BUDGET = {
-    "quick": {"examples": 350, "workers": 8, "time_cap": 70},
+    "quick": {"examples": 450, "workers": 8, "time_cap": 70},
     "thorough": {"examples": 12000, "workers": 14, "time_cap": 900},
 }
 
